@@ -14,7 +14,7 @@ open Chem AbsMass CondenseMass
 text-keyed element masses; and its composition has distinct keys -/
 def aaTableOk (mono : Bool) : Bool :=
   Gen.aaComp.all fun e =>
-    decide (constMass mono e.2 = chemMass (emOf mono) (decodeComp e.2)) &&
+    decide (constMass mono e.2 = AbsMass.chemMass (emOf mono) (decodeComp e.2)) &&
     decide (((decodeComp e.2).map (·.1)).Nodup)
 
 theorem aaTable_ok : ∀ mono, aaTableOk mono = true := by
@@ -32,7 +32,7 @@ def termKeys : List (List Char) := (ionAdjP ++ chargeP ++ ntermP ++ ctermP).map 
 carrier has exactly the atoms of `NTERM_COMPOSITION` + `CTERM_COMPOSITION`; distinct keys -/
 def termTableOk (mono : Bool) : Bool :=
   decide (okOr0 (Mass.adjustMass 0 (some 0) Mass.ionP mono 0 0 none none) =
-    chemMass (emOf mono) ionAdjP + chemMass (emOf mono) chargeP) &&
+    AbsMass.chemMass (emOf mono) ionAdjP + AbsMass.chemMass (emOf mono) chargeP) &&
   termKeys.all (fun x => decide (compGet ionAdjP x + compGet chargeP x = compGet ntermP x + compGet ctermP x)) &&
   decide ((ionAdjP.map (·.1)).Nodup) && decide ((chargeP.map (·.1)).Nodup) &&
   decide ((ntermP.map (·.1)).Nodup) && decide ((ctermP.map (·.1)).Nodup)
@@ -56,17 +56,17 @@ theorem coherent_envOf (env : Pept.Env) (mono : Bool) : Coherent (envOf env mono
   obtain ⟨⟨⟨⟨⟨hadj, hterm⟩, hn1⟩, hn2⟩, hn3⟩, hn4⟩ := hT
   have hA := aaTable_ok mono
   have hAe : ∀ x c, lookup x Gen.aaComp = some c →
-      constMass mono c = chemMass (emOf mono) (decodeComp c) ∧ ((decodeComp c).map (·.1)).Nodup := by
+      constMass mono c = AbsMass.chemMass (emOf mono) (decodeComp c) ∧ ((decodeComp c).map (·.1)).Nodup := by
     intro x c hl
-    have hm := chem_lookup_mem x Gen.aaComp c hl
+    have hm := Mass.chem_lookup_mem x Gen.aaComp c hl
     have := List.all_eq_true.mp hA (x, c) hm
     simpa [Bool.and_eq_true] using this
   refine ⟨?_, hadj, ?_, ?_, hn1, hn2, hn3, hn4, rfl, rfl, rfl, rfl⟩
   · intro x
-    show (aaMass mono x.toNat).getD 0 = chemMass (emOf mono) (decodeComp ((lookup x.toNat Gen.aaComp).getD []))
+    show (aaMass mono x.toNat).getD 0 = AbsMass.chemMass (emOf mono) (decodeComp ((lookup x.toNat Gen.aaComp).getD []))
     unfold aaMass
     cases hl : lookup x.toNat Gen.aaComp with
-    | none => simp [decodeComp, chemMass]
+    | none => simp [decodeComp, AbsMass.chemMass]
     | some c => simpa using (hAe _ c hl).1
   · intro x
     show compGet ionAdjP x + compGet chargeP x = compGet ntermP x + compGet ctermP x
